@@ -156,6 +156,10 @@ def tree_of(o, keep: set, depth=0):
                 # an opaque object without settings of its own
                 sub = {"node": "obj", "open": False, "members": []}
             ms.append([n, "inst", None, sub])
+        elif n in keep:
+            # a private attribute the key names: its value if it holds one, an opaque object otherwise (never descended
+            # into: a private field that holds a configuration object is a second path to settings already listed)
+            ms.append([n, "inst", None, {"leaf": canon(v)} if is_plain(v) else {"node": "obj", "open": False, "members": []}])
         else:
             ms.append([n, "inst", None, {"leaf": {"t": "opaque", "v": "hidden"}}])
     if cls == "Arguments":
@@ -227,7 +231,7 @@ def do_set(p):
         after = {"leaf": {"t": "opaque", "v": "uninspectable:" + exn_name(ex)}}
     try:
         got = proc.get(key)
-        get = {"ok": canon(got) if not _is_node(got) else {"t": "opaque", "v": _node_tag(got)}}
+        get = {"ok": canon_get(key, got)}
     except Exception as ex:  # noqa: BLE001
         get = {"raise": exn_name(ex)}
     return {"before": before, "has": has, "set": set_r, "after": after, "get": get}
@@ -235,6 +239,14 @@ def do_set(p):
 
 def _is_node(o):
     return (isinstance(o, dict) and type(o) is dict) or type(o).__name__ in DESCEND
+
+
+def canon_get(key, got):
+    """what Processor.get returned, as the snapshot shows the same thing"""
+    private = key.split(".")[-1].startswith("_")
+    if not is_plain(got) and (private or not _is_node(got)) and not callable(got):
+        return {"t": "opaque", "v": "obj-closed"}       # an object held by an attribute, listed as an opaque object
+    return canon(got) if not _is_node(got) else {"t": "opaque", "v": _node_tag(got)}
 
 
 def _node_tag(o):
@@ -413,7 +425,7 @@ def do_derive(p):
         copy_after = {"leaf": {"t": "opaque", "v": "uninspectable:" + exn_name(ex)}}
     try:
         got = target.get(key)
-        get = {"ok": canon(got) if not _is_node(got) else {"t": "opaque", "v": _node_tag(got)}}
+        get = {"ok": canon_get(key, got)}
     except Exception as ex:  # noqa: BLE001
         get = {"raise": exn_name(ex)}
     orig_after = tree_of(proc, keep)
